@@ -545,7 +545,7 @@ def next_statement(
             if column not in state.indents:
                 raise IndentationError(
                     "unindent does not match any outer indentation level",
-                    ("<tokenize>", state.lnum, state.pos, state.line, state.lnum, state.pos + 1),
+                    ("<tokenize>", state.lnum, max(state.pos, 1), state.line, state.lnum, max(state.pos, 1) + 1),
                 )
             state.indents = state.indents[:-1]
             state.alt_indents = state.alt_indents[:-1]
@@ -555,7 +555,7 @@ def next_statement(
     if not consistent:  # the comparison with the enclosing level depends on the width of a tab
         raise TabError(
             "inconsistent use of tabs and spaces in indentation",
-            ("<tokenize>", state.lnum, state.pos, state.line, state.lnum, state.pos + 1),
+            ("<tokenize>", state.lnum, max(state.pos, 1), state.line, state.lnum, max(state.pos, 1) + 1),
         )
     return None
 
